@@ -13,7 +13,7 @@ A *case* is plain JSON-like data:
            "logic": {"ref": T} | {"switch": {"on": E, "cases": [[case, T], ...], "default": T|None}},
            "state": E|None, "cond": [type, name]|None}
     T     {"fn": id} | {"wf": name}
-    E     {"lit": json} | {"path": [root, key, ...]} | {"map": [[key, E], ...]} | {"bad": True}
+    E     {"lit": json} | {"path": [root, key, ...]} | {"map": [[key, E], ...]} | {"list": [E, ...]} | {"bad": True}
     FN    {"c": ok|skip|depSkip|retry|permFail, "d": delay, "how": "pre"|"eval"|None, "by": key|None,
            "rf": None | {"prefix", "nameKey": None|key, "mode", "calls": [...], "pre": bool}}
 
@@ -74,6 +74,9 @@ def expr_steps(e, out=None):
             out.add(p[1])
     elif "map" in e:
         for _, x in e["map"]:
+            expr_steps(x, out)
+    elif "list" in e:
+        for x in e["list"]:
             expr_steps(x, out)
     return out
 
@@ -351,6 +354,154 @@ def gen_case(r, *, n=None, mode="mixed", rf_prob=None, p_ok=None, subs=True, **k
     return {"trig": gen_trigger(r), "main": "main", "defs": defs, "fns": fns}
 
 
+# --------------------------------------------------------------------------- targeted generators (own RNG use;
+# `gen_case`'s stream is untouched)
+
+def _step(label, logic, inputs=None, skip_if=None, for_each=None, state="obs", cond=True):
+    st = {"label": label, "deps": [], "inputs": inputs, "skipIf": skip_if, "forEach": for_each, "logic": logic,
+          "state": {"map": [[label, path("value")]]} if state == "obs" else state,
+          "cond": ["C" + label, f"step {label}"] if cond else None}
+    st["deps"] = step_deps(st)
+    return st
+
+
+def _vf(c="ok", d=0):
+    return {"c": c, "d": d, "how": None if c == "ok" else "pre", "by": None, "rf": None}
+
+
+def _rf(site, mode, d=None, name_key=None):
+    cls, calls, _ = RF_MODES[mode]
+    return {"c": cls, "d": LOAD_RETRY if mode == "get-retry" else (d if d is not None else 11), "how": None, "by": None,
+            "rf": {"prefix": site, "nameKey": name_key, "mode": mode, "calls": list(calls), "pre": False}}
+
+
+def gen_skipped_sub_case(r):
+    """a step whose Logic is a sub-workflow in which EVERY inner step ends Skip / DepSkip for the trigger (so the
+    sub-workflow's overall outcome is a skip, not Ok), followed by steps that reference it — and, as a control,
+    the same shape with one inner step that does run (`control=True`: the sub-workflow is Ok)"""
+    fns, steps = {}, []
+    control = r.random() < 0.25
+    trig = gen_trigger(r)
+    trig["flag"] = True
+    if r.random() < 0.6:
+        fns["main.st0"] = _vf() if r.random() < 0.6 else _rf("main.st0", "get-ok")
+        steps.append(_step("st0", {"ref": {"fn": "main.st0"}},
+                           inputs={"map": [["flag", lit(True)], ["x", lit(gen_json(r, 1))]]}))
+    k = len(steps)
+    lbl = f"st{k}"
+    via_switch = r.random() < 0.3
+    sub_name = f"sub-main.{lbl}.c0" if via_switch else f"sub-main.{lbl}"
+    inner = []
+    n_inner = r.randint(1, 3)
+    runner = r.randrange(n_inner) if control else None
+    for j in range(n_inner):
+        il = f"in{j}"
+        site = f"{sub_name}.{il}"
+        how = r.choice(["skipIf-lit", "skipIf-parent", "fn-skip", "fn-depSkip", "dep"]) if j else \
+            r.choice(["skipIf-lit", "skipIf-parent", "fn-skip", "fn-depSkip"])
+        if j == runner:
+            how = "run"
+        ins = [["p", path("parent", "flag")]]
+        skip_if = None
+        fn = _vf() if r.random() < 0.5 else _rf(site, "get-ok")
+        if how == "skipIf-lit":
+            skip_if = lit(True)
+        elif how == "skipIf-parent":
+            skip_if = path("parent", "flag")
+        elif how == "fn-skip":
+            fn = _vf("skip")
+        elif how == "fn-depSkip":
+            fn = _vf("depSkip")
+        elif how == "dep":
+            ins.append(["prev", path("steps", f"in{j - 1}")])
+        fns[site] = fn
+        inner.append(_step(il, {"ref": {"fn": site}}, inputs={"map": ins}))
+    sub_inputs = {"map": [["flag", path("parent", "flag") if r.random() < 0.5 else lit(True)]] +
+                  ([["u", path("steps", "st0", "got", "x")]] if steps and r.random() < 0.5 else [])}
+    if via_switch:
+        other = f"main.{lbl}.c1"
+        fns[other] = _vf()
+        logic = {"switch": {"on": lit("c0"), "cases": [["c0", {"wf": sub_name}], ["c1", {"fn": other}]],
+                            "default": None if r.random() < 0.5 else {"fn": other}}}
+    else:
+        logic = {"ref": {"wf": sub_name}}
+    steps.append(_step(lbl, logic, inputs=sub_inputs))
+    # the step that references the sub-workflow step, and one downstream of it
+    d1, d2 = f"st{k + 1}", f"st{k + 2}"
+    fns[f"main.{d1}"] = _vf() if r.random() < 0.4 else _rf(f"main.{d1}", r.choice(["get-ok", "match-ok", "create"]))
+    steps.append(_step(d1, {"ref": {"fn": f"main.{d1}"}},
+                       inputs={"map": [["from", path("steps", lbl)], ["y", lit(r.choice(SCALARS))]]}))
+    if r.random() < 0.7:
+        fns[f"main.{d2}"] = _vf() if r.random() < 0.5 else _rf(f"main.{d2}", "get-ok")
+        steps.append(_step(d2, {"ref": {"fn": f"main.{d2}"}}, inputs={"map": [["z", path("steps", d1, "got", "y")]]}))
+    defs = [{"name": "main", "steps": steps}, {"name": sub_name, "steps": inner}]
+    return {"trig": trig, "main": "main", "defs": defs, "fns": fns, "control": control}
+
+
+def gen_item_error_case(r):
+    """a forEach step whose itemIn is a LIST of map expressions one member of which cannot be evaluated for one item
+    (the list as a whole is then unevaluable: PermFail, Logic never evaluated), its Logic observable either through
+    API calls or through not echoing its inputs; plus a step referencing it.  25 % controls without the bad member."""
+    fns, steps = {}, []
+    control = r.random() < 0.25
+    n = r.randint(1, 3)
+    bad_at = None if control else r.randrange(n)
+    items = []
+    for i in range(n):
+        kvs = [["a", lit(f"k{i}")], ["b", path("parent", "n") if r.random() < 0.5 else lit(i)]]
+        if i == bad_at:
+            kvs.append(["c", path("parent", "nope") if r.random() < 0.6 else {"bad": True}])
+        items.append({"map": kvs})
+    site = "main.st0"
+    how = r.choice(["rf", "skip", "echo", "retry"])
+    fns[site] = {"rf": _rf(site, "get-ok"), "skip": _vf("skip"), "echo": _vf(), "retry": _vf("retry", 5)}[how]
+    steps.append(_step("st0", {"ref": {"fn": site}}, inputs={"map": [["x", lit(gen_json(r, 1))]]},
+                       for_each={"itemIn": {"list": items}, "inputKey": "item"}))
+    fns["main.st1"] = _vf() if r.random() < 0.5 else _rf("main.st1", "get-ok")
+    steps.append(_step("st1", {"ref": {"fn": "main.st1"}}, inputs={"map": [["from", path("steps", "st0")]]}))
+    return {"trig": gen_trigger(r), "main": "main", "defs": [{"name": "main", "steps": steps}], "fns": fns,
+            "control": control}
+
+
+def gen_race_case(r):
+    """a step with ≥ 2 dependencies that are NOT Ok and each finish on an API call (so that their completion order
+    can be permuted), `condition` declared on the dependent and on the steps downstream of it"""
+    fns, steps = {}, []
+    n_bad = r.choice([2, 2, 3])
+    n_ok = r.choice([0, 1, 1])
+    kinds = ["bad"] * n_bad + ["ok"] * n_ok
+    r.shuffle(kinds)
+    firsts = []
+    for i, kd in enumerate(kinds):
+        l = f"st{i}"
+        site = f"main.{l}"
+        if kd == "ok":
+            fns[site] = _rf(site, r.choice(["get-ok", "match-ok"]))
+        else:
+            fns[site] = _rf(site, r.choice(["get-retry", "create", "patch"]), d=r.choice([3, 11, 45]))
+        steps.append(_step(l, {"ref": {"fn": site}}, inputs={"map": [["x", lit(i)]]},
+                           state="obs" if r.random() < 0.5 else None, cond=r.random() < 0.7))
+        firsts.append(l)
+    k = len(steps)
+    dep = f"st{k}"
+    refs = [l for l, kd in zip(firsts, kinds) if kd == "bad"]
+    refs += [l for l, kd in zip(firsts, kinds) if kd == "ok" and r.random() < 0.7]
+    r.shuffle(refs)
+    fns[f"main.{dep}"] = _vf() if r.random() < 0.5 else _rf(f"main.{dep}", "get-ok")
+    steps.append(_step(dep, {"ref": {"fn": f"main.{dep}"}},
+                       inputs={"map": [[f"d{j}", path("steps", l)] for j, l in enumerate(refs)]}))
+    prev = dep
+    for j in range(r.choice([1, 1, 2])):
+        l = f"st{k + 1 + j}"
+        fns[f"main.{l}"] = _vf()
+        ins = [["p", path("steps", prev)]]
+        if j and r.random() < 0.5:
+            ins.append(["q", path("steps", r.choice(firsts))])
+        steps.append(_step(l, {"ref": {"fn": f"main.{l}"}}, inputs={"map": ins}))
+        prev = l
+    return {"trig": gen_trigger(r), "main": "main", "defs": [{"name": "main", "steps": steps}], "fns": fns}
+
+
 # --------------------------------------------------------------------------- exhaustive small DAGs
 
 CHAMELEON = "chameleon"
@@ -401,6 +552,8 @@ def _wire_expr(e):
         return {"path": list(e["path"])}
     if "map" in e:
         return {"map": [[k, _wire_expr(x)] for k, x in e["map"]]}
+    if "list" in e:
+        return {"list": [_wire_expr(x) for x in e["list"]]}
     return {"bad": True}
 
 
@@ -466,6 +619,8 @@ def cel_expr(e):
         return "=" + ".".join(e["path"])
     if "bad" in e:
         return "=1/0"
+    if "list" in e:
+        return "=[" + ", ".join(cel_expr(x)[1:] for x in e["list"]) + "]"
     return "={" + ", ".join(cel_lit(k) + ": " + cel_expr(x)[1:] for k, x in e["map"]) + "}"
 
 
@@ -475,6 +630,8 @@ def spec_value(e):
         return copy.deepcopy(e["lit"])
     if "map" in e:
         return {k: spec_value(x) for k, x in e["map"]}
+    if "list" in e:
+        return [spec_value(x) for x in e["list"]]
     return cel_expr(e)
 
 
